@@ -54,7 +54,8 @@ function renderDoc(doc, indent = "") {
 export function renderTpl(parts) {
   let s = "`";
   for (const p of parts) {
-    if (typeof p === "string") s += p.replace(/[`\\]/g, (c) => "\\" + c).replace(/\$\{/g, "\\${");
+    // (a raw carriage return inside a template literal is read as a line feed: it is written as an escape)
+    if (typeof p === "string") s += p.replace(/[`\\]/g, (c) => "\\" + c).replace(/\$\{/g, "\\${").replace(/\r/g, "\\r");
     else s += "${" + renderType(p) + "}";
   }
   return s + "`";
